@@ -191,9 +191,13 @@ Definition getBookMove (wf : Z -> Z) (legal : list move) (ents : list (move * Z)
 
 Definition pgWeight (c : Z) : Z := c.                    (* getWeight(count, true) *)
 
-(** total weight as computed by the first loop (exact integers) *)
-Definition weightSum (wf : Z -> Z) (ents : list (move * Z)) : Z :=
-  fold_left (fun s e => s + wf (snd e)) ents 0.
+(** total weight of an entry list (exact integers; what the first loop computes when no
+    candidate is rejected and no [int] overflow happens) *)
+Fixpoint weightSum (wf : Z -> Z) (ents : list (move * Z)) : Z :=
+  match ents with
+  | [] => 0
+  | e :: t => wf (snd e) + weightSum wf t
+  end.
 
 (** the whole polyglot probe for an arbitrary file, key, legal-move list and random number *)
 Definition pgBookMove (f : bookFile) (key : N) (pos : position) (legal : list move) (rnd : Z) : option outcome :=
